@@ -512,10 +512,21 @@ class TorControlProtocol(LineOnlyReceiver):
         keys = [strargs[i] for i in range(0, len(strargs), 2)]
         values = [strargs[i] for i in range(1, len(strargs), 2)]
 
+        for k in keys:
+            if not k or any(c.isspace() or c == '=' for c in k):
+                return defer.fail(ValueError("Invalid config key: %r" % (k,)))
+
         def maybe_quote(s):
-            if ' ' in s:
-                return '"%s"' % s
-            return s
+            # anything that isn't a plain token is sent as a QuotedString
+            # with C-style escapes (control-spec section 2.1.1) so that it
+            # stays one value, and one line
+            if not any(c in ' "\\' or ord(c) < 0x20 or ord(c) == 0x7f for c in s):
+                return s
+            escapes = {'\\': '\\\\', '"': '\\"', '\n': '\\n', '\r': '\\r', '\t': '\\t'}
+            return '"%s"' % ''.join(
+                escapes.get(c, c if 0x20 <= ord(c) != 0x7f else '\\%03o' % ord(c))
+                for c in s
+            )
         values = [maybe_quote(v) for v in values]
         args = ' '.join(map(lambda x, y: '%s=%s' % (x, y), keys, values))
         return self.queue_command('SETCONF ' + args)
